@@ -21,6 +21,24 @@ func main() {
 		cmdCheck(os.Args[2:])
 	case "list":
 		cmdList(os.Args[2:])
+	case "scan":
+		// development aid: print the set a scan kind/target enumerates
+		w, err := loadWorld("/repo", "/verif/stubs")
+		if err != nil {
+			fmt.Fprintln(os.Stderr, err)
+			os.Exit(2)
+		}
+		set, err := w.scanSet(&ScanDecl{Kind: os.Args[2], Target: os.Args[3]})
+		if err != nil {
+			fmt.Fprintln(os.Stderr, err)
+			os.Exit(2)
+		}
+		var ks []string
+		for k := range set {
+			ks = append(ks, k)
+		}
+		sort.Strings(ks)
+		fmt.Println(strings.Join(ks, ", "))
 	default:
 		fmt.Fprintln(os.Stderr, "unknown command", os.Args[1])
 		os.Exit(2)
